@@ -8,7 +8,7 @@ package db
 // caller's context (lock state, ghost transaction state).
 //@ func Update
 //@   attr inline
-//@   requires db != nil && !in_tx && !commit_failed
+//@   requires db != nil && !in_tx && !commit_failed && !commit_done
 //@   ensures a-failed-commit-is-reported-to-the-caller: commit_failed ==> err != nil
 //@   ensures the-transaction-is-closed: !in_tx
 //@ func View
@@ -23,6 +23,9 @@ package db
 //@ ghost write_failed bool
 // commit_failed: the last Commit returned an error (nothing of that transaction is stored)
 //@ ghost commit_failed bool
+// commit_done: the write transaction of the running operation has been committed; from then on the operation must not
+// touch the store again (a failure there would be reported for a change that is already durable)
+//@ ghost commit_done bool
 
 //@ func (DB).BeginTx
 //@   attr trusted
@@ -34,6 +37,7 @@ package db
 
 //@ func (DB).BeginReadTx
 //@   attr trusted
+//@   requires no-store-access-after-the-commit-of-this-operation: !commit_done
 //@   modifies nothing
 //@   ensures err == nil ==> result0 != nil
 
@@ -41,9 +45,10 @@ package db
 //@   attr trusted
 //@   requires tx-open: in_tx
 //@   requires no-swallowed-write-error: !write_failed
-//@   modifies in_tx, commit_failed
+//@   modifies in_tx, commit_failed, commit_done
 //@   ensures !in_tx
 //@   ensures commit_failed == (result != nil)
+//@   ensures commit_done == (result == nil)
 
 //@ func (DBTransaction).Rollback
 //@   attr trusted
